@@ -16,12 +16,48 @@ search: the property restated on the implementation's outputs (python, below):
 """
 import json
 import math
+import re
 import struct
 
 import vv
 import prims_common as pc
 
 NV = 3
+# majority-vote teams are saved under the wta id on trees without the fix
+# "fix: a majority-vote team classifier is saved under the winner-takes-all id ..." (findings/C08.json)
+CHECK_MV_ROUNDTRIP = False
+WORD_RE = re.compile(r"^[A-Za-z_][A-Za-z_0-9]*$")
+
+
+def typed_tokens(R):
+    """the real serialize::save text as typed tokens for the model's parser:
+    each member individual's own text becomes one token i:<k>"""
+    if not R["ser"] or R["ser"][0] == "-":
+        return None
+    text = bytes.fromhex(R["ser"][0]).decode("latin-1")
+    pos = 0
+    for k, h in enumerate(R["inds"]):
+        it = bytes.fromhex(h).decode("latin-1")
+        i = text.find(it, pos)
+        if i < 0:
+            return None
+        mark = " @%d " % k
+        text = text[:i] + mark + text[i + len(it):]
+        pos = i + len(mark)
+    out = []
+    for t in text.split():
+        if t[0] == "@":
+            out.append("i:" + t[1:])
+        elif re.match(r"^-?[0-9]+$", t):
+            out.append("n:" + t)
+        elif WORD_RE.match(t) and t not in ("inf", "nan"):
+            out.append("s:" + t)
+        else:
+            try:
+                out.append("f:" + canon(float(t)))
+            except ValueError:
+                return None
+    return out
 
 
 # ------------------------------------------------------------------ doubles
@@ -279,12 +315,13 @@ def split_out(o):
 
 def parse_T_result(rt):
     """q ... t ... acc x fit x l ..."""
-    out = {"q": [], "t": [], "l": [], "var": [], "mat": [], "cls": [], "slots": [], "acc": None, "fit": None}
+    out = {"q": [], "t": [], "l": [], "var": [], "mat": [], "cls": [], "slots": [], "rt": [], "ser": [], "inds": [],
+           "sertok": [], "rtm": [], "acc": None, "fit": None}
     cur = None
     i = 0
     while i < len(rt):
         w = rt[i]
-        if w in ("q", "t", "l", "var", "mat", "cls", "slots"):
+        if w in ("q", "t", "l", "var", "mat", "cls", "slots", "rt", "ser", "inds", "sertok", "rtm"):
             cur = w
         elif w in ("acc", "fit"):
             out[w] = rt[i + 1]
@@ -454,6 +491,10 @@ def oracle_T(c, otoks, rt):
         if not (v != v or v >= 0.0):
             bad.append(("gaussian:variance-negative", "per-class variance %r is neither NaN nor >= 0 "
                         "(contradicts C08_welford_variance_nan_or_nonneg)" % v))
+    if R["rt"] and (c["comp"] != "mv" or CHECK_MV_ROUNDTRIP) and R["rt"] != R["q"]:
+        bad.append(("roundtrip:%s:load-of-save-answers-differently" % combo,
+                    "%s model answers %s on the queries; after serialize::save + serialize::lambda::load it answers %s"
+                    % (combo, R["q"], R["rt"])))
     if R["l"] and R["l"] != R["q"]:
         bad.append(("lambdify:%s:differs-from-direct-construction" % combo,
                     "lambdify'ed model answers %s, directly constructed model %s" % (R["l"], R["q"])))
@@ -547,15 +588,20 @@ def run(ck):
     res = vv.prove("Properties_C08", vv.FLOCQ_AXIOMS)
     ck.add_proof(res)
     ck.add_proof(vv.prove("Refuted_C08", set()))
+    ck.add_proof(vv.prove("Link_C08", vv.FLOCQ_AXIOMS))
     ck.trusted += ["coq/Lambda/LambdaDefs.v is a hand-written model (tie = correspondence only)",
                    "extraction: ExtrOcamlBasic only; ocaml/lambda_driver.ml + zutil.ml (libm atan/exp = OCaml Stdlib = glibc)",
                    "harness/h_lambda.cc (canonical printing, std::vector histories); g++ 12 ASan/UBSan as detector of "
                    "use-after-free / UB",
                    "std::vector relocation/assignment semantics (copy-construct + destroy; element-wise assignment)"]
     ck.assumptions += [
-        "program outputs enter as an oracle (the interpreter is property C01); they are finite-or-undefined or +-inf, "
-        "never NaN (C13): slot() converts NaN to size_t (undefined), binary sureness would be NaN",
-        "H_libm (Section hypotheses of LambdaFloat.v): exp(x) is NaN or >= 0; exp(x) <= 1 for x <= 0; exp(NaN) is NaN; "
+        "program outputs enter as an oracle (the interpreter is property C01); for slot() and the binary sureness they "
+        "must not be NaN (the conversion of NaN to size_t is undefined; |NaN| is NaN): Props/Link_C08.v derives this "
+        "from C13's closure theorem for every well-typed program over the shipped primitives on good inputs; the "
+        "gaussian / team / accuracy theorems need no such precondition",
+        "serialisation is modelled at token level: the text of an individual (i_mep::save/load) and the decimal / %.16e "
+        "text of numbers are property C11's codec; every run the model's parser reads the REAL saved text",
+        "H_libm (hypotheses of the gaussian theorems): exp(NaN) is NaN; exp(x) in [0,1] for x <= 0; "
         "atan enters only through the oracle [libm_atan] (no fact about it is needed for the range theorems)",
         "counters (unsigned / uintmax_t) do not wrap: fewer than 2^32 training examples",
     ]
@@ -573,7 +619,12 @@ def run(ck):
     for k, (l, o) in enumerate(zip(lines, hout)):
         ot, rt = split_out(o or "")
         if ot is not None:
-            mlines.append(l + " O " + " ".join(ot))
+            ml = l + " O " + " ".join(ot)
+            if l.startswith("T") and " mv " not in l[:20]:
+                st = typed_tokens(parse_T_result(rt))
+                if st:
+                    ml += " S %d %s" % (len(st), " ".join(st))
+            mlines.append(ml)
             midx.append(k)
     rc, mout, merr = vv.run_lines(model, "\n".join(mlines) + "\n")
     if rc != 0 or len(mout) != len(mlines):
@@ -618,6 +669,26 @@ def run(ck):
             ck.add_violation(key, what, {"cases": [rl], "impl": ho[:3000], "model": mres.get(k)})
         mo = mres.get(k)
         impl_r = "R " + " ".join(rt) if rt else "R"
+        if c["kind"] == "T" and mo is not None:
+            # serialisation: the model's parser must accept the real text, print it back
+            # identically, and the model it loaded must answer like the really loaded one
+            Ri = parse_T_result(rt)
+            Rm = parse_T_result(mo.split()[1:])
+            it = impl_r.split()
+            if "rt" in it:
+                a = it.index("rt")
+                b = min([it.index(w) for w in ("mat", "var") if w in it[a:]] + [len(it)])
+                impl_r = " ".join(it[:a] + it[b:])
+            mo = mo.split(" sertok ")[0]
+            if Rm["sertok"]:
+                if Rm["sertok"][0] != "ok":
+                    ck.add_diff({"case": line}, "sertok " + Rm["sertok"][0], Ri["ser"][0][:400],
+                                what="the token-level model of serialize::save/load does not reproduce the real text")
+                elif Rm["rtm"] != Ri["rt"]:
+                    ck.add_diff({"case": line}, "rtm " + " ".join(Rm["rtm"]), "rt " + " ".join(Ri["rt"]),
+                                what="model loaded from the real text answers differently from the really loaded model")
+                else:
+                    ck.coverage["serial_roundtrips"] = ck.coverage.get("serial_roundtrips", 0) + 1
         if mo is not None and " ".join(mo.split()) != " ".join(impl_r.split()):
             ck.add_diff({"case": line}, mo[:2000], impl_r[:2000])
     ck.coverage["per_kind"] = hist
